@@ -1,4 +1,4 @@
-import PtnModel.Proofs.EnvFold
+import PtnModel.Proofs.EnvDense
 /-!
 # C04 — inner products, expectation values and environment blocks equal the dense quantities
 
@@ -151,6 +151,135 @@ example : Op.operatorAverage χ₀ o₀ = .ok 8 := by
 /-- `tr(o₀ ρ₀) = 2` -/
 example : Op.operatorDensityAverage ρ₀ o₀ = .ok 2 := by
   rw [density_dense (rho := ρ₀) (o := o₀) (d := 2) (by decide) (by decide) rfl]
+  decide
+
+/-! ## (d) environment blocks
+
+Vocabulary (`Proofs/EnvDense.lean`, all written with the model's `MPS.ampRow` / `MPO.elemRow`):
+`mpsBond ψ k`, `mpoBond o k` — bond dimensions `D_k`, `Dw_k` left of site `k`;
+`IsLeftBlock ψ o d k E` — `E` has shape `(D_k, Dw_k, D_k)` and
+`E[a,w,a'] = Σ_{σ,τ ∈ digitsU d k} ampPrefix ψ k τ a · elemPrefix o k σ τ w · conj (ampPrefix ψ k σ a')`
+(partial contraction of the sites `0 … k-1`);
+`IsRightBlock ψ o d k E` — the same with `ampSuffix`, `elemSuffix` over `digitsU d (L-k)`
+(partial contraction of the sites `k … L-1`). -/
+
+/-- `compute_right_operator_blocks(psi, op)` returns (no exception) a list `BR` of `L` blocks and `BR[i]` is the
+partial contraction of the sites `i+1 … L-1` (bra = ket = `psi`). -/
+theorem right_blocks_dense {ψ : MPS R} {o : MPO R} {d : Nat} (hψ : MPS.Shaped ψ d) (ho : MPO.Shaped o d)
+    (hL : ψ.A.length = o.A.length) :
+    ∃ BR, Op.rightBlocks ψ o = .ok BR ∧ BR.length = ψ.A.length ∧
+      ∀ i, i < ψ.A.length → ∃ E, BR[i]? = some E ∧ IsRightBlock ψ o d (i + 1) E :=
+  right_blocks_core hψ.2 (hL ▸ ho.2) hψ.1
+
+/-- the initial left block `[[[1]]]` is the (empty) partial contraction of the sites left of site `0`. -/
+theorem left_block_zero_dense {ψ : MPS R} {o : MPO R} {d : Nat} (hψ : MPS.Shaped ψ d) (ho : MPO.Shaped o d)
+    (hL : ψ.A.length = o.A.length) : IsLeftBlock ψ o d 0 (MPS.ones111 : T3 R) :=
+  left_block_zero hψ.2 (hL ▸ ho.2) rfl rfl rfl rfl
+
+/-- `contraction_operator_step_left(A[i], A[i], W[i], BL[i])` raises no exception and turns the partial
+contraction of the sites `0 … i-1` into the partial contraction of the sites `0 … i`. -/
+theorem left_step_dense {ψ : MPS R} {o : MPO R} {d : Nat} (hψ : MPS.Shaped ψ d) (ho : MPO.Shaped o d)
+    (hL : ψ.A.length = o.A.length) {i : Nat} (hi : i < ψ.A.length) {A : T3 R} {W : T4 R}
+    (hA : ψ.A[i]? = some A) (hW : o.A[i]? = some W) {E : T3 R} (hE : IsLeftBlock ψ o d i E) :
+    ∃ T, Op.opStepLeft A A W E = .ok T ∧ IsLeftBlock ψ o d (i + 1) T :=
+  left_step_core hψ.2 (hL ▸ ho.2) hi hA hW hE
+
+/-! ## (e) the effective local operators are projections of the full operator -/
+
+/-- One-site map.  `Lb`, `Rb` are the partial contractions left and right of site `i`, `W = op.A[i]`, and `A`, `B`
+are arbitrary site tensors of the shape `(d, D_i, D_{i+1})` of `psi.A[i]`.  Then
+`apply_local_hamiltonian(Lb, Rb, W, A)` raises no exception, has that shape, and
+`⟨B, H_eff A⟩ = Σ_{s,a,b} conj(B[s,a,b]) (H_eff A)[s,a,b]` equals the matrix element of the dense operator between
+the full states obtained from `psi` by replacing the tensor of site `i` by `B` resp. `A`. -/
+theorem local_projection {ψ : MPS R} {o : MPO R} {d : Nat} (hψ : MPS.Shaped ψ d) (ho : MPO.Shaped o d)
+    (hL : ψ.A.length = o.A.length) {i : Nat} (hi : i < ψ.A.length) {W : T4 R} (hW : o.A[i]? = some W)
+    {A B : T3 R} (hA0 : A.d0 = d) (hA1 : A.d1 = mpsBond ψ i) (hA2 : A.d2 = mpsBond ψ (i + 1))
+    (hB0 : B.d0 = d) (hB1 : B.d1 = mpsBond ψ i) (hB2 : B.d2 = mpsBond ψ (i + 1))
+    {Lb Rb : T3 R} (hLb : IsLeftBlock ψ o d i Lb) (hRb : IsRightBlock ψ o d (i + 1) Rb) :
+    ∃ T, Op.applyLocalHamiltonian Lb Rb W A = .ok T ∧ T.d0 = d ∧ T.d1 = mpsBond ψ i ∧ T.d2 = mpsBond ψ (i + 1) ∧
+      ∑ s ∈ range d, ∑ a ∈ range (mpsBond ψ i), ∑ b ∈ range (mpsBond ψ (i + 1)), star (B.f s a b) * T.f s a b
+      = ∑ s ∈ digitsU d ψ.A.length, ∑ t ∈ digitsU d ψ.A.length,
+          star ((ψ.setSite i B).amp s) * o.elem s t * (ψ.setSite i A).amp t :=
+  local_projection_core hψ.2 (hL ▸ ho.2) hi hW hA0 hA1 hA2 hB0 hB1 hB2 hLb hRb
+
+/-- Zero-site (bond) map.  `Lb`, `Rb` are the partial contractions of the sites `0 … k-1` and `k … L-1`, and `C`,
+`C'` are arbitrary `D_k × D_k` matrices.  Then `apply_local_bond_contraction(Lb, Rb, C)` raises no exception and
+`⟨C', K_eff C⟩` equals the matrix element of the dense operator between the full states obtained from `psi` by
+inserting `C'` resp. `C` on bond `k` (`ampBond`; `ampBond_ident`: inserting the identity gives `psi`). -/
+theorem bond_projection {ψ : MPS R} {o : MPO R} {d : Nat} (hψ : MPS.Shaped ψ d) (ho : MPO.Shaped o d)
+    (hL : ψ.A.length = o.A.length) {k : Nat} (hk : k ≤ ψ.A.length) {C C' : Mat R}
+    (hC0 : C.m = mpsBond ψ k) (hC1 : C.n = mpsBond ψ k) (hC0' : C'.m = mpsBond ψ k) (hC1' : C'.n = mpsBond ψ k)
+    {Lb Rb : T3 R} (hLb : IsLeftBlock ψ o d k Lb) (hRb : IsRightBlock ψ o d k Rb) :
+    ∃ T, Op.applyLocalBondContraction Lb Rb C = .ok T ∧ T.m = mpsBond ψ k ∧ T.n = mpsBond ψ k ∧
+      ∑ a ∈ range (mpsBond ψ k), ∑ b ∈ range (mpsBond ψ k), star (C'.f a b) * T.f a b
+      = ∑ s ∈ digitsU d ψ.A.length, ∑ t ∈ digitsU d ψ.A.length,
+          star (ampBond ψ k C' s) * o.elem s t * ampBond ψ k C t :=
+  bond_projection_core hψ.2 (hL ▸ ho.2) hk hC0 hC1 hC0' hC1' hLb hRb
+
+/-! ## (f) Hermiticity -/
+
+/-- the dense matrix of `o` is Hermitian -/
+def MPO.DenseHermitian (o : MPO R) (d : Nat) : Prop :=
+  ∀ s ∈ digitsU d o.A.length, ∀ t ∈ digitsU d o.A.length, o.elem s t = star (o.elem t s)
+
+/-- If the dense operator is Hermitian, so is the one-site effective Hamiltonian:
+`⟨B, H_eff A⟩ = conj ⟨A, H_eff B⟩` for all site tensors `A`, `B`. -/
+theorem local_hermitian {ψ : MPS R} {o : MPO R} {d : Nat} (hψ : MPS.Shaped ψ d) (ho : MPO.Shaped o d)
+    (hL : ψ.A.length = o.A.length) (hH : MPO.DenseHermitian o d)
+    {i : Nat} (hi : i < ψ.A.length) {W : T4 R} (hW : o.A[i]? = some W)
+    {A B : T3 R} (hA0 : A.d0 = d) (hA1 : A.d1 = mpsBond ψ i) (hA2 : A.d2 = mpsBond ψ (i + 1))
+    (hB0 : B.d0 = d) (hB1 : B.d1 = mpsBond ψ i) (hB2 : B.d2 = mpsBond ψ (i + 1))
+    {Lb Rb : T3 R} (hLb : IsLeftBlock ψ o d i Lb) (hRb : IsRightBlock ψ o d (i + 1) Rb) :
+    ∃ TA TB, Op.applyLocalHamiltonian Lb Rb W A = .ok TA ∧ Op.applyLocalHamiltonian Lb Rb W B = .ok TB ∧
+      ∑ s ∈ range d, ∑ a ∈ range (mpsBond ψ i), ∑ b ∈ range (mpsBond ψ (i + 1)), star (B.f s a b) * TA.f s a b
+      = star (∑ s ∈ range d, ∑ a ∈ range (mpsBond ψ i), ∑ b ∈ range (mpsBond ψ (i + 1)),
+          star (A.f s a b) * TB.f s a b) := by
+  obtain ⟨TA, hTA, _, _, _, eA⟩ := local_projection hψ ho hL hi hW hA0 hA1 hA2 hB0 hB1 hB2 hLb hRb
+  obtain ⟨TB, hTB, _, _, _, eB⟩ := local_projection hψ ho hL hi hW hB0 hB1 hB2 hA0 hA1 hA2 hLb hRb
+  refine ⟨TA, TB, hTA, hTB, ?_⟩
+  rw [eA, eB]
+  exact herm_sum _ _ _ _ (by rw [hL]; exact hH)
+
+/-- If the dense operator is Hermitian, so is the zero-site effective operator. -/
+theorem bond_hermitian {ψ : MPS R} {o : MPO R} {d : Nat} (hψ : MPS.Shaped ψ d) (ho : MPO.Shaped o d)
+    (hL : ψ.A.length = o.A.length) (hH : MPO.DenseHermitian o d) {k : Nat} (hk : k ≤ ψ.A.length) {C C' : Mat R}
+    (hC0 : C.m = mpsBond ψ k) (hC1 : C.n = mpsBond ψ k) (hC0' : C'.m = mpsBond ψ k) (hC1' : C'.n = mpsBond ψ k)
+    {Lb Rb : T3 R} (hLb : IsLeftBlock ψ o d k Lb) (hRb : IsRightBlock ψ o d k Rb) :
+    ∃ T T', Op.applyLocalBondContraction Lb Rb C = .ok T ∧ Op.applyLocalBondContraction Lb Rb C' = .ok T' ∧
+      ∑ a ∈ range (mpsBond ψ k), ∑ b ∈ range (mpsBond ψ k), star (C'.f a b) * T.f a b
+      = star (∑ a ∈ range (mpsBond ψ k), ∑ b ∈ range (mpsBond ψ k), star (C.f a b) * T'.f a b) := by
+  obtain ⟨T, hT, _, _, e⟩ := bond_projection hψ ho hL hk hC0 hC1 hC0' hC1' hLb hRb
+  obtain ⟨T', hT', _, _, e'⟩ := bond_projection hψ ho hL hk hC0' hC1' hC0 hC1 hLb hRb
+  refine ⟨T, T', hT, hT', ?_⟩
+  rw [e, e']
+  exact herm_sum _ _ _ _ (by rw [hL]; exact hH)
+
+/-! ### non-vacuity of (d), (e), (f) on `χ₀` (bond dimension 2) and `o₀` (bond dimension 2) -/
+
+example : ∃ BR, Op.rightBlocks χ₀ o₀ = .ok BR ∧ BR.length = 2 := by
+  obtain ⟨BR, h, hl, _⟩ := right_blocks_dense (ψ := χ₀) (o := o₀) (d := 2) (by decide) (by decide) rfl
+  exact ⟨BR, h, hl⟩
+
+/-- data satisfying all hypotheses of `left_step_dense`, `local_projection`, `local_hermitian` at site `0` -/
+example : ∃ (Lb Rb : T3 ℤ) (W : T4 ℤ) (A : T3 ℤ), χ₀.A[0]? = some A ∧ o₀.A[0]? = some W ∧ A.d0 = 2 ∧
+    A.d1 = mpsBond χ₀ 0 ∧ A.d2 = mpsBond χ₀ 1 ∧ IsLeftBlock χ₀ o₀ 2 0 Lb ∧ IsRightBlock χ₀ o₀ 2 1 Rb := by
+  obtain ⟨BR, _, _, h⟩ := right_blocks_dense (ψ := χ₀) (o := o₀) (d := 2) (by decide) (by decide) rfl
+  obtain ⟨E, _, hE⟩ := h 0 (by decide)
+  exact ⟨MPS.ones111, E, _, _, rfl, rfl, rfl, rfl, rfl,
+    left_block_zero_dense (ψ := χ₀) (o := o₀) (d := 2) (by decide) (by decide) rfl, hE⟩
+
+/-- data satisfying all hypotheses of `bond_projection`, `bond_hermitian` on the inner bond `k = 1` -/
+example : ∃ (Lb Rb : T3 ℤ) (C : Mat ℤ), C.m = mpsBond χ₀ 1 ∧ C.n = mpsBond χ₀ 1 ∧
+    IsLeftBlock χ₀ o₀ 2 1 Lb ∧ IsRightBlock χ₀ o₀ 2 1 Rb := by
+  obtain ⟨BR, _, _, h⟩ := right_blocks_dense (ψ := χ₀) (o := o₀) (d := 2) (by decide) (by decide) rfl
+  obtain ⟨E, _, hE⟩ := h 0 (by decide)
+  obtain ⟨T, _, hT⟩ := left_step_dense (ψ := χ₀) (o := o₀) (d := 2) (by decide) (by decide) rfl (i := 0)
+    (by decide) rfl rfl (left_block_zero_dense (ψ := χ₀) (o := o₀) (d := 2) (by decide) (by decide) rfl)
+  exact ⟨T, E, Op.identMat 2, rfl, rfl, hT, hE⟩
+
+/-- `o₀ = Z ⊗ 1 + 1 ⊗ 2X` is Hermitian as a dense matrix -/
+example : MPO.DenseHermitian o₀ 2 := by
+  unfold MPO.DenseHermitian
   decide
 
 end Ptn.C04
